@@ -9,7 +9,7 @@ import (
 )
 
 func main() {
-	rtgen.Main("C01", "Router.check_c01",
+	rtgen.MainX("C01", "Router.check_c01",
 		"valid-by-construction packets (1-3 segments; first hop from inside, transit, cross-over, peering "+
 			"out/in, last hop inbound; both construction directions; external, sibling and internal ingress; "+
 			"optional HBH/E2E headers; UDP/TCP/SCMP/other payloads) on random link-type configurations, and a "+
